@@ -278,8 +278,8 @@ func (m *c12Monitor) AfterEndBlock(r *Run, ctx sdk.Context, res abci.ResponseEnd
 			}
 			prev, ok1 := k.GetPriceTRRoundID(ctx, t, c.id-1)
 			cur, ok2 := k.GetPriceTRRoundID(ctx, t, c.id)
-			if ok1 && ok2 && prev.Price != cur.Price {
-				m.violate(r, "carry-forward-keeps-previous-price", "price", fmt.Sprintf("height %d: feeder %d round %d closed without a final price but stores %q, previous %q", h, f, c.id, cur.Price, prev.Price))
+			if ok1 && ok2 && (prev.Price != cur.Price || prev.Decimal != cur.Decimal) {
+				m.violate(r, "carry-forward-keeps-previous-price", "price", fmt.Sprintf("height %d: feeder %d round %d closed without a final price but stores %q with %d decimals, previous %q with %d decimals", h, f, c.id, cur.Price, cur.Decimal, prev.Price, prev.Decimal))
 				return
 			}
 			c.closed = true
